@@ -357,9 +357,12 @@ fn build_filter_expr(
         Expr::column(&inner_field.name)
     };
 
+    // `pred.op` is recorded in the orientation `outer op inner` (see
+    // try_extract_correlation); this expression puts the inner column on the
+    // left, so the operator has to be mirrored.
     Some(Expr::BinaryExpr {
         left: Box::new(inner_expr),
-        op: pred.op,
+        op: flip_op(pred.op),
         right: Box::new(pred.outer_expr.clone()),
     })
 }
